@@ -262,6 +262,155 @@ Section Reprice.
     end.
 End Reprice.
 
+(* ---------- origin side: core/vm/evm.go frames, ETX cache and the Quai debit ----------
+   A contract execution is a well-bracketed sequence of events.  The EVM keeps, next to the account
+   state, the list evm.ETXCache of external transactions emitted so far; every call kind
+   (Call, CallCode, DelegateCall, StaticCall, create) opens its frame with evm.snapshot() =
+   (StateDB revision, len(ETXCache), ...) and, when the frame fails, evm.revertToSnapshot restores
+   BOTH.  The model keeps that pair explicit: [f_bal]/[f_deb] is the StateDB revision, [f_len] the
+   cache length.
+     EEnter k from to v  a nested frame is opened by CALL/CALLCODE/DELEGATECALL/STATICCALL/CREATE
+                         (opCall.. -> evm.Call..): write protection of the caller, CanTransfer,
+                         snapshot, Transfer
+     EEmit id sender conv direct v fee gas
+                         CONVERT / ETX (instructions.go opConvert, opETX) or the top level
+                         CreateETX: guards, SubBalance(value+fee), append to the cache
+     ELeave ok           the frame ends; ok = STOP/RETURN, otherwise REVERT / invalid op / out of gas *)
+Inductive ckind := KCall | KCallCode | KDelegate | KStatic | KCreate.
+Record erec := mkErec { x_id : N; x_sender : N; x_value : Z; x_fee : Z }.
+Inductive event :=
+| EEnter (k : ckind) (from to : N) (v : Z)
+| EEmit (id sender : N) (conv direct : bool) (v fee gas : Z)
+| ELeave (ok : bool).
+
+Definition bals := list (N * Z).
+Fixpoint bal_get (b : bals) (a : N) : Z :=
+  match b with [] => 0 | (a', x) :: b' => if N.eqb a a' then x else bal_get b' a end.
+Fixpoint bal_add (b : bals) (a : N) (d : Z) : bals :=
+  match b with
+  | [] => [(a, d)]
+  | (a', x) :: b' => if N.eqb a a' then (a', x + d) :: b' else (a', x) :: bal_add b' a d
+  end.
+Definition bal_total (b : bals) : Z := fold_right (fun p acc => snd p + acc) 0 b.
+
+Record oframe := mkOframe {
+  f_bal : bals; f_deb : Z; f_len : nat;   (* the snapshot: state revision + len(ETXCache) *)
+  f_static : bool;                        (* interpreter.readOnly before the frame *)
+  f_failed : bool                         (* an instruction of this frame already returned an error *)
+}.
+Record ostate := mkOstate {
+  o_bal : bals;
+  o_deb : Z;               (* ghost: everything SubBalance'd by an emission that is still in force *)
+  o_cache : list erec;     (* evm.ETXCache, oldest first *)
+  o_stack : list oframe;
+  o_static : bool;
+  o_skip : nat             (* depth inside a frame that was never entered / code after an error *)
+}.
+
+Definition cache_cost (c : list erec) : Z := fold_right (fun e acc => x_value e + x_fee e + acc) 0 c.
+
+Definition top_failed (s : ostate) : bool :=
+  match o_stack s with [] => false | f :: _ => f_failed f end.
+Definition fail_top (s : ostate) : ostate :=
+  match o_stack s with
+  | [] => s
+  | f :: r => mkOstate (o_bal s) (o_deb s) (o_cache s)
+                       (mkOframe (f_bal f) (f_deb f) (f_len f) (f_static f) true :: r)
+                       (o_static s) (o_skip s)
+  end.
+Definition skip_more (s : ostate) : ostate :=
+  mkOstate (o_bal s) (o_deb s) (o_cache s) (o_stack s) (o_static s) (S (o_skip s)).
+
+(* the prime-terminus windows in which a Quai->Qi conversion may be emitted (opConvert / CreateETX) *)
+Definition conv_allowed (ptn : Z) : bool :=
+  (controller_kick_in_block <=? ptn)
+  && negb ((kawpow_fork_block <=? ptn) && (ptn <? kawpow_fork_block + kquai_change_hold_interval))
+  && negb ((sha_equivalent_fork_block <=? ptn) && (ptn <? sha_equivalent_fork_block + kquai_change_hold_interval)).
+
+(* [snap_cache] selects what revertToSnapshot does with the cache: true = the code as reviewed
+   (truncate to the saved length), false = only the account state is rolled back (used by the
+   refutation that shows why the cache length must be part of the snapshot) *)
+Definition ostep (snap_cache : bool) (ptn : Z) (s : ostate) (e : event) : ostate :=
+  match e with
+  | EEnter k from to v =>
+      if negb (Nat.eqb (o_skip s) 0) || top_failed s then skip_more s
+      else if o_static s && (match k with KCall => 0 <? v | KCreate => true | _ => false end)
+      then skip_more (fail_top s)                         (* ErrWriteProtection in the caller *)
+      else
+        let moves := match k with KCall | KCreate => true | _ => false end in
+        let checks := match k with KCall | KCreate | KCallCode => true | _ => false end in
+        if checks && (bal_get (o_bal s) from <? v) then skip_more s   (* ErrInsufficientBalance *)
+        else
+          let fr := mkOframe (o_bal s) (o_deb s) (length (o_cache s)) (o_static s) false in
+          let b := if moves && (0 <? v) then bal_add (bal_add (o_bal s) from (- v)) to v else o_bal s in
+          mkOstate b (o_deb s) (o_cache s) (fr :: o_stack s)
+                   (o_static s || match k with KStatic => true | _ => false end) 0
+  | EEmit id sender conv direct v fee gas =>
+      (* direct = evm.Call on a non-internal address -> CreateETX: [gas] is the call gas, ETXGas is
+         taken from it first and a zero total is not refused; otherwise opConvert / opETX: [gas] is
+         the ETX gas limit popped from the stack *)
+      if negb (Nat.eqb (o_skip s) 0) || top_failed s then s
+      else if o_static s then fail_top s                  (* writes: true *)
+      else if conv && ((v <? min_quai_conversion_amount) || negb (conv_allowed ptn)) then s
+      else if (if direct then (gas <? etx_gas) || (gas - etx_gas <? tx_gas) else gas <? tx_gas) then s
+      else if (negb direct && (v + fee =? 0)) || (bal_get (o_bal s) sender <? v + fee) then s
+      else mkOstate (bal_add (o_bal s) sender (- (v + fee))) (o_deb s + (v + fee))
+                    (o_cache s ++ [mkErec id sender v fee]) (o_stack s) (o_static s) 0
+  | ELeave ok =>
+      match o_skip s with
+      | S n => mkOstate (o_bal s) (o_deb s) (o_cache s) (o_stack s) (o_static s) n
+      | O =>
+          match o_stack s with
+          | [] => s
+          | f :: r =>
+              if ok && negb (f_failed f)
+              then mkOstate (o_bal s) (o_deb s) (o_cache s) r (f_static f) 0
+              else mkOstate (f_bal f) (f_deb f)
+                            (if snap_cache then firstn (f_len f) (o_cache s) else o_cache s)
+                            r (f_static f) 0
+          end
+      end
+  end.
+Definition ostart (b : bals) : ostate := mkOstate b 0 [] [] false 0.
+Definition orun (snap_cache : bool) (ptn : Z) (b : bals) (tr : list event) : ostate :=
+  fold_left (ostep snap_cache ptn) tr (ostart b).
+
+(* ---------- destination side, Qi->Quai: core/state_processor.go RedeemLockedQuai ----------
+   Every zone block h looks back at the blocks h - d for the four depths d of
+   params.LockupByteToBlockDepth and pays, among others, every conversion ETX to the Quai ledger
+   found there -- guarded by blockDepth == params.ConversionLockPeriod.  Coinbase ETXs (property
+   C13) are not modelled: [q_conv] is false for them.  A recipient that does not exist yet pays the
+   account creation fee out of the credit, or gets nothing when the credit is smaller. *)
+Record qetx := mkQetx { q_id : N; q_conv : bool; q_to : N; q_value : Z }.
+Definition qchain := list (Z * list qetx).
+Fixpoint block_at (c : qchain) (n : Z) : list qetx :=
+  match c with [] => [] | (m, l) :: c' => if n =? m then l else block_at c' n end.
+
+Definition eligible_at (c : qchain) (h d : Z) : list qetx :=
+  if h <=? d then []
+  else filter (fun e => q_conv e && (d =? conversion_lock_period)) (block_at c (h - d)).
+Definition eligible (depths : list Z) (c : qchain) (h : Z) : list qetx :=
+  flat_map (eligible_at c h) depths.
+
+Fixpoint n_mem (a : N) (l : list N) : bool :=
+  match l with [] => false | b :: l' => N.eqb a b || n_mem a l' end.
+(* one credit: (existing accounts, credits so far as (etx id, recipient, amount)) *)
+Definition pay_one (fee : Z) (st : list N * list (N * N * Z)) (e : qetx) : list N * list (N * N * Z) :=
+  let '(ex, out) := st in
+  if n_mem (q_to e) ex then (ex, out ++ [(q_id e, q_to e, q_value e)])
+  else if q_value e <? fee then (ex, out)
+  else (q_to e :: ex, out ++ [(q_id e, q_to e, q_value e - fee)]).
+Definition redeem_at (depths : list Z) (fee : Z) (c : qchain) (ex : list N) (h : Z)
+  : list N * list (N * N * Z) :=
+  fold_left (pay_one fee) (eligible depths c h) (ex, []).
+(* RedeemLockedQuai run at the given heights, in that order, on one state *)
+Fixpoint redeem_scan (depths : list Z) (fee : Z) (c : qchain) (ex : list N) (hs : list Z)
+  : list (list (N * N * Z)) :=
+  match hs with
+  | [] => []
+  | h :: hs' => let '(ex', out) := redeem_at depths fee c ex h in out :: redeem_scan depths fee c ex' hs'
+  end.
+
 (* ---------- correspondence cases ---------- *)
 
 Definition kind_code (k : kind) : N :=
@@ -280,7 +429,9 @@ Inductive case_body :=
 | CMint (v gas : Z) (o_total o_outputs o_gas : Z) (o_ok : bool)
 | CRefund (v gas : Z) (o_total o_outputs o_gas : Z)
 | CReprice (h : hdr) (knew : Z) (table : list (Z * Z * Z)) (etxs : list etx)
-           (obs : option (list (N * N * Z) * Z * Z)).
+           (obs : option (list (N * N * Z) * Z * Z))
+| COrigin (ptn : Z) (b : bals) (tr : list event) (obs_cache : list (N * N * Z)) (obs_bals : list (N * Z))
+| CRedeem (fee : Z) (ex : list N) (c : qchain) (hs : list Z) (obs : list (list (N * Z))).
 Definition case := (N * case_body)%type.
 
 Fixpoint zz_eqb (a b : list (Z * Z)) : bool :=
@@ -293,6 +444,19 @@ Fixpoint nnz_eqb (a b : list (N * N * Z)) : bool :=
   match a, b with
   | [], [] => true
   | (x, y, z) :: a', (x', y', z') :: b' => N.eqb x x' && N.eqb y y' && (z =? z') && nnz_eqb a' b'
+  | _, _ => false
+  end.
+
+Fixpoint nz_eqb (a b : list (N * Z)) : bool :=
+  match a, b with
+  | [], [] => true
+  | (x, y) :: a', (x', y') :: b' => N.eqb x x' && (y =? y') && nz_eqb a' b'
+  | _, _ => false
+  end.
+Fixpoint lnz_eqb (a b : list (list (N * Z))) : bool :=
+  match a, b with
+  | [], [] => true
+  | x :: a', y :: b' => nz_eqb x y && lnz_eqb a' b'
   | _, _ => false
   end.
 
@@ -319,6 +483,13 @@ Definition case_ok (c : case) : bool :=
           let '(l', a', rl') := project r in nnz_eqb l' l && (a' =? a) && (rl' =? rl)
       | _, _ => false
       end
+  | COrigin ptn b tr oc ob =>
+      let s := orun true ptn b tr in
+      nnz_eqb (map (fun e => (x_id e, x_sender e, x_value e)) (o_cache s)) oc
+      && nz_eqb (map (fun p => (fst p, bal_get (o_bal s) (fst p))) ob) ob
+      && Nat.eqb (length (o_stack s)) 0 && Nat.eqb (o_skip s) 0
+  | CRedeem fee ex c hs obs =>
+      lnz_eqb (map (map (fun t => (snd (fst t), snd t))) (redeem_scan lockup_depths fee c ex hs)) obs
   end.
 Definition mismatches (cs : list case) : list N :=
   map fst (filter (fun c => negb (case_ok c)) cs).
